@@ -8,9 +8,12 @@ Open Scope Z_scope.
 (* one cycle of stimulus packed in one integer: w_en + 2 * r_en + 4 * w_data *)
 Definition dec_inp (x : Z) : inp := Inp (Z.odd x) (x / 4) (Z.odd (x / 2)).
 
-(* per cycle: w_rdy, r_rdy, r_data (0 while r_rdy = 0: unspecified then), level, w_level, r_level *)
+(* one cycle of outputs packed in one integer (keeps the generated case files small):
+   w_rdy + 2 * r_rdy + 4 * (level + 256 * (w_level + 256 * (r_level + 256 * r_data))),
+   r_data taken as 0 while r_rdy = 0 (unspecified then); levels are < 256 for every generated depth *)
 Definition enc_out (o : out) : list Z :=
-  let v := vis o in [b2l (w_rdy v); b2l (r_rdy v); r_data v; level v; w_level v; r_level v].
+  let v := vis o in
+  [b2l (w_rdy v) + 2 * b2l (r_rdy v) + 4 * (level v + 256 * (w_level v + 256 * (r_level v + 256 * r_data v)))].
 
 Definition enc_trace (t : list out) : list Z := flat_map enc_out t.
 
